@@ -1,5 +1,6 @@
 import NeoFS.Driver.EC
 import NeoFS.Driver.Int256
+import NeoFS.Driver.Range
 open NeoFS NeoFS.Driver
 
 /-- State of all stateful models; pure models need none. -/
@@ -12,6 +13,7 @@ def stepLine (s : DState) (line : String) : DState × String :=
   else match o.engine with
   | "ec" => (s, ecStep o)
   | "int256" => (s, int256Step o)
+  | "range" => (s, rangeStep o)
   | _ => (s, "=> bad-op")
 
 partial def loop (h : IO.FS.Stream) (out : IO.FS.Stream) (s : DState) : IO Unit := do
